@@ -195,9 +195,13 @@ class H2Protocol:
         except (h2.exceptions.StreamClosedError, KeyError, h2.exceptions.ProtocolError):
             # Stream or connection has closed whilst waiting to send
             # data, not a problem - just force close it.
-            await self.stream_buffers[stream_id].close()
-            del self.stream_buffers[stream_id]
-            self.priority.remove_stream(stream_id)
+            stream_buffer = self.stream_buffers.pop(stream_id, None)
+            if stream_buffer is not None:
+                await stream_buffer.close()
+            try:
+                self.priority.remove_stream(stream_id)
+            except priority.MissingStreamError:
+                pass
 
     async def handle(self, event: Event) -> None:
         if isinstance(event, RawData):
